@@ -320,6 +320,11 @@ static bool chain_step(Var& v, const std::string& s, int sb)
   if (s == "fp") { if (auto* p = std::get_if<VS>(&v)) { VI q = (*p)->p; v = q; return true; } return false; }
   if (s == "afl") { if (auto* p = std::get_if<VS>(&v)) { auto q = &((*p)->l); v = rlbox::sandbox_reinterpret_cast<char*>(q); return true; } return false; }
   if (s == "afp") { if (auto* p = std::get_if<VS>(&v)) { auto q = &((*p)->p); v = rlbox::sandbox_reinterpret_cast<int**>(q); return true; } return false; }
+  if (s.rfind("ae", 0) == 0) { // &(*pa)[k] for pa : int(*)[4] -- bounds-checked index, then element designation
+    long long k = num(2);
+    v = std::visit([&](auto& p) -> Var { auto pa = rlbox::sandbox_reinterpret_cast<int(*)[4]>(p); VI q = &((*pa)[k]); return q; }, v);
+    return true;
+  }
   if (s == "mal") { v = g_sb[sb].malloc_in_sandbox<int>(4); return true; }
   (void)sb;
   return false;
